@@ -90,10 +90,19 @@ func (n *node[T]) buildMethods() {
 	buildMethodIndexes(n.methodIndex)
 }
 
-func (n *node[T]) AllowHeader() string { return getMethodIndexEntity(n.methodIndex).options }
+func (n *node[T]) AllowHeader() string { return n.methodIndexEntity().options }
 
 // Methods 当前节点支持的请求方法
-func (n *node[T]) Methods() []string { return getMethodIndexEntity(n.methodIndex).methods }
+func (n *node[T]) Methods() []string { return n.methodIndexEntity().methods }
+
+// 由处理函数在锁的范围之外调用，需要自行加锁。
+func (n *node[T]) methodIndexEntity() methodIndexEntity {
+	if n.root != nil && n.root.locker != nil {
+		n.root.locker.RLock()
+		defer n.root.locker.RUnlock()
+	}
+	return getMethodIndexEntity(n.methodIndex)
+}
 
 // 添加一个处理函数
 func (n *node[T]) addMethods(h T, pattern string, ms []types.Middleware[T], methods ...string) error {
